@@ -251,7 +251,6 @@ var errTable = [][2]string{
 	{"goat txs length mismatched", "goat-tx-count"},
 	{"invalid goat tx root", "tx-root"},
 	{"non-VALID status", "engine"},
-	{"engine down", "engine"},
 	{"pubKey does not match signer address", "ante:signature"},
 	{"bitmap: buffer length", "bitmap-length"},
 	{"nil pointer dereference", "nil-vote"},
